@@ -84,6 +84,8 @@ impl<X> Slot<X> {
 }
 
 pub struct World {
+    /// empty report() calls are counted, not recorded (idle cycles)
+    pub quiet_empty_batches: bool,
     pub t: T,
     pub tag: String,
     pub uniq: u32,
@@ -154,6 +156,8 @@ static CASE_NO: AtomicUsize = AtomicUsize::new(0);
 thread_local! {
     static VT: RefCell<Option<(Arc<Case>, usize)>> = const { RefCell::new(None) };
     static NO_YIELD: Cell<bool> = const { Cell::new(false) };
+    /// hook sites are logged but are no yield points (idle collector cycles)
+    static LOG_ONLY: Cell<bool> = const { Cell::new(false) };
     static LAST_FREE: Cell<usize> = const { Cell::new(usize::MAX) };
     static IS_COLLECTOR: Cell<bool> = const { Cell::new(false) };
     pub static ACTIVE: Cell<*mut VtCtx> = const { Cell::new(std::ptr::null_mut()) };
@@ -185,6 +189,10 @@ impl Reporter for SinkReporter {
         match cur {
             Some(case) => {
                 let mut w = case.w();
+                if w.quiet_empty_batches && spans.is_empty() {
+                    w.h.idle_reports += 1;
+                    return;
+                }
                 let t = w.tick();
                 let cycle = w.h.cycles.len().saturating_sub(1);
                 w.h.batches.push(Batch {
@@ -284,6 +292,9 @@ fn hook(site: fastrace::verif::Site) {
         }
         let t = w.tick();
         w.h.hooks.push(HookEv { t, vt: Some(id), kind });
+    }
+    if LOG_ONLY.with(|n| n.get()) {
+        return;
     }
     if let Some(n) = yield_name {
         case.baton.yield_now(id, Yield::Site(n));
@@ -1019,6 +1030,11 @@ impl VtCtx {
                 self.w().h.label("early_collect");
                 return;
             }
+        }
+        if std::thread::panicking() {
+            // a second unwinding inside a destructor that runs during unwinding is not something
+            // the harness may do to the process
+            self.unwind_next_pop = false;
         }
         let g = self.guards.pop().unwrap();
         if let Some((at, sc)) = self.skip_marks.last().copied() {
@@ -2117,6 +2133,17 @@ impl VtCtx {
             NO_YIELD.with(|x| x.set(true));
         }
         let _reset = QuietReset(quiet);
+        // an ordinary volley shares the vthread's backlog budget with Bulk (three commands per
+        // trace), so that backlogs alone never fill the ring; volleys beyond the ring's capacity
+        // are overload episodes on purpose
+        let n = if quiet {
+            n as usize
+        } else {
+            let room = 9800usize.saturating_sub(self.bulk_used) / 3;
+            let n = (n as usize).min(room);
+            self.bulk_used += 3 * n;
+            n
+        };
         for _ in 0..n {
             let u = self.w().uniq();
             if let Some(idx) = self.op_root(tid(1, 0x7011_0000 + u as u64, u), 0, true, 0, StrSeed { c: 0, l: 2 }, None, None) {
@@ -2292,6 +2319,27 @@ impl VtCtx {
             Op::Churn { k } => self.op_churn(*k),
             Op::Exit => return false,
             Op::TraceFn { kind } => self.op_trace_fn(*kind),
+            Op::WhilePanicking { inner } => {
+                if std::thread::panicking() || self.reentrant_depth > 0 || matches!(**inner, Op::WhilePanicking { .. } | Op::Exit | Op::Flush) {
+                    return self.exec(inner);
+                }
+                self.w().h.label("op_while_thread_is_panicking");
+                struct Deliberate;
+                struct OnDrop<F: FnMut()>(F);
+                impl<F: FnMut()> Drop for OnDrop<F> {
+                    fn drop(&mut self) {
+                        (self.0)()
+                    }
+                }
+                let mut cont = true;
+                let me: *mut VtCtx = self;
+                let _ = catch_unwind(AssertUnwindSafe(|| {
+                    // SAFETY: `self` is not used by anybody else while the closure runs
+                    let _d = OnDrop(|| cont = unsafe { &mut *me }.exec(inner));
+                    std::panic::resume_unwind(Box::new(Deliberate));
+                }));
+                return cont;
+            }
         }
         true
     }
@@ -2406,6 +2454,7 @@ fn run_case_inner(prog: &Program, opts: &ExecOpts) -> Hist {
         closure_hits: 0,
         fill_cids: vec![],
         drain_ring: 0,
+        quiet_empty_batches: false,
     };
     let case = Arc::new(Case {
         prog: prog.clone(),
@@ -2795,6 +2844,34 @@ fn collector_main(case: &Arc<Case>, id: usize) {
         }
         {
             let mut w = case.w();
+            let t1 = w.tick();
+            w.h.cycles[ci].t1 = Some(t1);
+        }
+        // a collector that keeps cycling while nothing happens (short report interval, many
+        // flush() calls): `idle_cycles` further cycles directly behind this one. Together with it
+        // they form one composite cycle of the history; their empty reports are only counted.
+        let idle = case.prog.idle_cycles;
+        if idle > 0 {
+            {
+                let mut w = case.w();
+                w.quiet_empty_batches = true;
+                w.h.label("idle_cycles_behind_a_cycle");
+            }
+            for _ in 0..idle {
+                match case.opts.mode {
+                    Mode::Api => fastrace::flush(),
+                    Mode::Sched => {
+                        #[cfg(fastrace_verif)]
+                        {
+                            LOG_ONLY.with(|n| n.set(true));
+                            fastrace::verif::run_collector_cycle();
+                            LOG_ONLY.with(|n| n.set(false));
+                        }
+                    }
+                }
+            }
+            let mut w = case.w();
+            w.quiet_empty_batches = false;
             let t1 = w.tick();
             w.h.cycles[ci].t1 = Some(t1);
         }
